@@ -630,7 +630,7 @@ fn dfs(cfg: Config, alpha: &[Op], hist: &mut Vec<Op>, held: usize, in_refresh: b
 
 pub fn explore(ctx: &Ctx, rep: &mut Report, found: &mut Findings) {
     let t0 = std::time::Instant::now();
-    let depth: usize = ctx.tier.pick(8, 9);
+    let depth: usize = ctx.tier.pick(7, 8);
     let sizes: Vec<usize> = ctx.tier.pick(vec![1, 2], vec![1, 2, 3]);
     let alpha = alphabet();
     let mut total = Acc::default();
@@ -638,8 +638,8 @@ pub fn explore(ctx: &Ctx, rep: &mut Report, found: &mut Findings) {
     for &size in &sizes {
         for init_full in [true, false] {
             let cfg = Config { size, init_full };
-            // the largest pool one step shallower (its alphabet is the same but more is enabled)
-            let depth = if size >= 3 { depth - 1 } else { depth };
+            // thorough: one step deeper on the smallest pool, where a whole refresh takes 3 events
+            let depth = if size == 1 && depth >= 8 { depth + 1 } else { depth };
             // the empty history and all enabled histories of length 1..3 first (work items)
             let mut acc = Acc::default();
             acc.candidates += 1;
